@@ -152,6 +152,8 @@ func streamC03(env *runEnv) {
 		{p1.addr, "127.0.0." + ph + ":" + strconv.Itoa(p0.port), "[::1]:" + strconv.Itoa(p2.port)},
 		{ph + ":" + strconv.Itoa(p0.port), ph + ph},
 		{},
+		{"127.0.0.2:" + strconv.Itoa(p0.port)}, // allowed, but nothing listens there (the listeners are on 127.0.0.1)
+		{"host-a.invalid:3389"}, // a name with letters: comparisons are by exact string, not by case folding
 	}
 	users := []string{"", "1", "2", "bob", "127.0.0.1", "1:" + strconv.Itoa(p0.port) + "\x00"}
 	modes := []string{"roundrobin", "unsigned", "signed", "any", "", "Any", "roundrobin "}
@@ -180,6 +182,14 @@ func streamC03(env *runEnv) {
 					add("127.0.0.1\x00", p0.port)         // doubled NUL
 					add("127.0\x00.0.1", p0.port)         // embedded NUL
 					add(user, p0.port)                    // bare user name
+					// an allowed but unreachable first name with alternate names that are live but not allowed
+					reqs = append(reqs, channelCreateWithAlts("127.0.0.2", p0.port, "127.0.0.1"))
+					reqs = append(reqs, channelCreateWithAlts("127.0.0.2", p0.port, "127.0.0.3", "127.0.0.1", "localhost"))
+					reqs = append(reqs, channelCreateWithAlts("127.0.0.1", p0.port, "127.0.0.1"))
+					add("host-a.invalid", 3389)           // the lettered entry itself
+					add("HOST-A.INVALID", 3389)           // ASCII case variant
+					add("ho\u017ft-a.invalid", 3389)      // U+017F folds to 's' under Unicode case folding
+					add("ho\u0073t-a.in\u212Aalid", 3389) // unrelated fold (Kelvin sign)
 					addRaw(p0.port, 21, utf16le("127.0.0.1\x00")[:19])                                    // odd-length UTF-16
 					addRaw(p0.port, 40, utf16le("127.0.0.1\x00"))                                         // over-long length field
 					addRaw(p0.port, 4, utf16le("127.0.0.1\x00"))                                          // short length field
@@ -187,7 +197,7 @@ func streamC03(env *runEnv) {
 					addRaw(p0.port, 22, cat(utf16le("127.0.0.1"), []byte{0x00, 0xd8, 0, 0}))             // lone surrogate
 					tokhosts := []string{p0.addr}
 					if tok {
-						tokhosts = []string{p0.addr, p1.addr, "", "127.0.0.1"}
+						tokhosts = []string{p0.addr, p1.addr, "", "127.0.0.1", "host-a.invalid:3389"}
 					}
 					for _, th := range tokhosts {
 						for ri, req := range reqs {
